@@ -8,6 +8,11 @@
    and the list allocation) must be equal.  Corpus, directed probes (one process each), random
    scripts, big maps / lists, bounded-exhaustive scripts, quote_key round trips, and the same
    through vnacal_property_* on the global and a per-calibration root.
+   Hash table: coq/PropTree/HashModel.v (the table of a map as coded, any hash function; HashProofs.v:
+   PropModel's association list is a sound abstraction of it) is run with h := crc32c on root-level
+   scripts whose keys collide in CRC-32C (modulo 8/16/32 and modulo the real sizes 11/33/99, and with
+   identical 32-bit CRCs) and compared bucket for bucket with the library's table (white-box op hdump);
+   crc32c_table[] of the C source is compared with the Coq definition crc_entry.
 3. A sanitizer report or a disagreement is shrunk and reported as a violation.  When a proof
    obligation breaks the search is widened; without a failing input the result is `unproved`.
 """
@@ -21,6 +26,7 @@ import prop_lib as pl
 
 VFILES = ["PropTree/PropModel.v", "PropTree/DocSpec.v", "PropTree/PropProofs.v",
           "PropTree/QuoteProofs.v", "PropTree/RebuildProofs.v", "PropTree/ApiProofs.v", "PropTree/WfProofs.v", "PropTree/DescGrammar.v", "PropTree/GrammarProofs.v",
+          "PropTree/HashModel.v", "PropTree/HashProofs.v",
           "Properties_C13.v"]
 
 # (name, script): probes for the candidate defects of DESIGN.md section 7 and for boundary cases;
@@ -119,12 +125,16 @@ def run(ctx):
         "Coq 8.16.1 kernel (coqc); vm_compute for the examples; no native_compute",
         "axioms: none (Print Assumptions: Closed under the global context for every theorem of Properties_C13.v)",
         "hand-written model coq/PropTree/PropModel.v of src/vnaproperty.c, tied by op-script correspondence on every run",
+        "hand-written model coq/PropTree/HashModel.v of the map hash table (map_compare_keys, map_find_anchor, map_subtree, "
+        "map_delete, map_expand), tied bucket for bucket (h := crc32c, crc table compared with the C source) on every run",
         "hand-written specification coq/PropTree/DocSpec.v (update rules of vnaproperty(3))",
         "extraction (ExtrOcamlBasic) and the OCaml glue in ocaml/drv_prop.ml; harness/prop_harness.c; gcc ASan/UBSan/LSan",
     ]
     ctx.assumptions = ["C strings contain no NUL and are passed through \"%s\" (vasprintf formatting is not modelled)",
                        "C locale for isalpha/isdigit/isascii; allocation never fails (C12 covers failures)",
-                       "hash chains are abstracted (a map is its insertion-ordered key list); validated with > 66 keys"]
+                       "PropModel keeps a map as its insertion-ordered association list; that this is a sound abstraction of the "
+                       "hash table as coded is a theorem (c13_hash_table_refines_assoc_list, every hash function) about one map "
+                       "node at a time"]
     ctx.rule = ("evaluation = one op executed on model and library with equal outcome lines; distinct non-trivial = "
                 "distinct scripts (by content) that contain at least one modifying op")
     thorough = ctx.tier == "thorough"
@@ -177,6 +187,41 @@ def run(ctx):
     big = [pl.gen_bigmap_script(ctx.rng, n) for n in ((25, 70, 150) if not thorough else (23, 25, 67, 70, 150, 300, 700))]
     big += [pl.gen_biglist_script(ctx.rng, n) for n in ((20, 70) if not thorough else (9, 17, 20, 33, 70, 200))]
     batch("big-collections", big)
+
+    # ---------------------------------------------------------------- the hash table
+    # (a) crc32c_table[] as written in the C source = the table of polynomial 0x1EDC6F41 = crc_entry of HashModel.v
+    try:
+        ctab = pl.parse_c_crc_table(ctx.repo)
+        rc, out, err = ctx.coq_eval("crc_table", "Require Import List NArith.\nImport ListNotations.\nRequire Import LV.PropTree.HashModel.\n"
+                                    "Example crc_table_of_the_C_source : map (fun i => crc_entry (N.of_nat i)) (seq 0 256) = [%s]%%N.\n"
+                                    "Proof. vm_compute. reflexivity. Qed.\n" % "; ".join(str(v) for v in ctab))
+        ctx.obligation("tie:crc32c_table (C source = Coq crc_entry = polynomial 0x1EDC6F41)",
+                       ctab == pl.crc32c_table() and rc == 0, "C/Python equal: %s, Coq check rc=%d %s" % (ctab == pl.crc32c_table(), rc, err[-200:]))
+    except RuntimeError as e_:
+        ctab = None
+        ctx.obligation("tie:crc32c_table (C source = Coq crc_entry = polynomial 0x1EDC6F41)", False, str(e_))
+    # (b) keys that collide in CRC-32C through the ordinary model/library correspondence
+    full_pairs = pl.full_collisions(ctx.rng, pairs=2 if not thorough else 6, budget=260000 if not thorough else 600000)
+    ctx.extra["crc32c_full_collisions"] = [[a.decode(), b.decode()] for a, b in full_pairs]
+    coll = [pl.gen_collision_map_script(ctx.rng, full_pairs) for _ in range(12 if not thorough else 120)]
+    batch("crc-collisions", coll)
+    # (c) HashModel.v (h := crc32c) against the buckets of the library's table
+    cases = [pl.gen_root_hash_case(ctx.rng, full_pairs, 80 if i % 3 else 230) for i in range(8 if not thorough else 80)]
+    steps, bad = pl.run_hash_tie(c_cmd, m_cmd, cases, env)
+    ctx.count(("hash-tie", steps), n=steps)
+    ctx.traces_validated += len(cases)
+    ctx.extra["hash_table_steps_compared"] = steps
+    ctx.obligation("tie:hash-table (HashModel.v with crc32c vs the library's buckets)", bad is None,
+                   "%d cases, %d steps" % (len(cases), steps) if bad is None else "%s at op %d of case %d" % (bad[2], bad[1], bad[0]))
+    if bad is not None:
+        ci, oi, what, cline, mline, err = bad
+        c_ops = cases[ci][0][:oi + 1]
+        sig = vplib.asan_signature(err) or {"kind": "disagreement", "op": "hash:" + c_ops[-1][0], "class": what}
+        # c13_hash_table_refines_assoc_list holds of the model: the property (look-up finds exactly the stored keys) sides with it
+        ctx.violation(sig, "hash table of the root map: %s after `%s` (model `%s`, library `%s`)" % (
+            what, pl.op_show(c_ops[-1]), (mline or "")[:200], (cline or "")[:200]),
+            {"script": [pl.op_text(o) for o in c_ops] + ["hdump"], "model": mline, "implementation": cline,
+             "how": "harness/prop_harness.c (ops, then hdump) vs ocaml/drv_prop (hset/hlook/hdel)", "stderr": err})
 
     # ---------------------------------------------------------------- bounded exhaustive
     if thorough:
